@@ -22,7 +22,12 @@ EXTRA = {"C05_B": ["C17"], "C15_B": ["C15", "C16"], "C16_B": ["C16", "C15"], "C1
          "C05_J": ["C05", "C16", "C15"], "C06_I": ["C06", "C17"], "C07_J": ["C07", "C15"], "C08_I": ["C08", "C15", "C16"],
          "C08_J": ["C08", "C13"], "C09_I": ["C09", "C13"], "C10_I": ["C10", "C15"], "C10_J": ["C10", "C15", "C16"],
          "C15_I": ["C15", "C17"], "C15_J": ["C15", "C09"], "C20_I": ["C20", "C12", "C15"],
-         "C01_I": ["C01", "C03"], "C01_J": ["C01", "C03"], "C18_I": ["C18", "C17"]}
+         "C01_I": ["C01", "C03"], "C01_J": ["C01", "C03"], "C18_I": ["C18", "C17"],
+         "C02_K": ["C02", "C17"], "C03_K": ["C03", "C17"], "C04_K": ["C04", "C17"], "C04_L": ["C04", "C17"], "C06_L": ["C06", "C17", "C03"],
+         "C07_L": ["C07", "C15", "C04"], "C08_K": ["C08", "C04"], "C08_L": ["C08", "C13"], "C10_K": ["C10", "C17"], "C10_L": ["C10", "C13"],
+         "C15_K": ["C15", "C16", "C17"], "C15_L": ["C15", "C10"], "C20_K": ["C20", "C15"], "C20_L": ["C20", "C17", "C15"], "C11_L": ["C11", "C12"],
+         "C12_K": ["C12", "C15"], "C16_K": ["C16", "C15"],
+         "C01_K": ["C01", "C03"], "C01_L": ["C01", "C15", "C03"], "C05_K": ["C05", "C15", "C17"], "C05_L": ["C05", "C17"]}
 
 
 def sh(cmd):
@@ -73,7 +78,10 @@ def main():
                       + ("; fourth round: the agent saw one-line summaries of A-F and was asked to go through the statement clause by clause and "
                          "break clauses no earlier change touched" if mid[-1] in "GH" else "")
                       + ("; fifth round: the agent saw one-line summaries of A-H and was asked for changes as hard to expose as it could make them "
-                         "(medium-size irregular inputs, histories across objects, argument forms, float ties, cooperating edits)" if mid[-1] in "IJ" else ""),
+                         "(medium-size irregular inputs, histories across objects, argument forms, float ties, cooperating edits)" if mid[-1] in "IJ" else "")
+                      + ("; sixth round: the agent saw one-line summaries of A-J, was told which mechanisms are used up, and was asked for last-element slips, "
+                         "error paths that leave partial state, long-input accumulation effects, interplay between the public classes, "
+                         "presence/absence combinations, exactly attained float values and two-object protocols" if mid[-1] in "KL" else ""),
             "description_and_what_it_needs_to_manifest": desc.strip(),
             "confirmed_in_scratch_worktree": {
                 "procedure": "in /tmp/wt/%s: demo on clean tree, git apply patch, 42 stable tests (guard off), demo again, revert" % prop,
